@@ -87,6 +87,8 @@ class Runner(object):
         self.track_pairs = False
         self.accessor_sweep = False
         self.ro_sweep = []
+        self.reopen_sweep = False
+        self.reopen_diffs = []
 
     def sha(self):
         import hashlib
@@ -299,6 +301,10 @@ class Runner(object):
             return ("toks", toks)
         if t == "reopen":
             auto = self.f.auto_update_timestamps
+            before = None
+            if self.reopen_sweep:
+                import accessors
+                before = accessors.sweep(self.f)
             self.f.close()
             gc.collect()
             self.check_ro_bytes()
@@ -321,6 +327,12 @@ class Runner(object):
             self.f = nixio.File.open(self.path, nixio.FileMode.ReadOnly if op[1] else nixio.FileMode.ReadWrite,
                                      auto_update_timestamps=auto)
             self.handles = [("File", self.f, None)]
+            if before is not None:
+                import accessors
+                after = accessors.sweep(self.f)
+                diffs = [[k, before.get(k, "absent"), after.get(k, "absent")]
+                         for k in sorted(set(before) | set(after)) if before.get(k, "absent") != after.get(k, "absent")]
+                self.reopen_diffs.append({"step": self.step, "accessors": len(after), "diffs": diffs[:5], "ndiffs": len(diffs)})
             if rw_sweep is not None:
                 # ... and in the read-only session: the answers must be the same
                 import accessors
@@ -1091,6 +1103,7 @@ def gen_history(seed, length, profile, workdir, with_times, k):
     r = Runner(path, with_times)
     r.track_pairs = bool(profile.get("track_pairs"))
     r.accessor_sweep = bool(profile.get("accessor_sweep"))
+    r.reopen_sweep = bool(profile.get("reopen_sweep"))
     g = Gen(rnd, r, profile)
     ops = []
     results = []
@@ -1119,7 +1132,7 @@ def gen_history(seed, length, profile, workdir, with_times, k):
     except OSError:
         pass
     return {"xfile": xfile, "ops": ops, "results": results, "trace": r.trace, "ro_violations": r.ro_violations, "infos": r.infos, "target_ids": r.target_ids,
-            "ro_sweep": r.ro_sweep, "walks": r.walks if profile.get("keep_walks") else None}
+            "ro_sweep": r.ro_sweep, "reopen_diffs": r.reopen_diffs, "walks": r.walks if profile.get("keep_walks") else None}
 
 
 def replay_history(ops, workdir, with_times, k=0):
